@@ -10,19 +10,19 @@ RULE = ("P1: TLC solves in exact rationals (a) the Gaussian family as weighted r
         "dispersion x diag(inverse exact information), the same coefficients, standard errors, covariance, deviance, "
         "dispersion and predictions from an object that was first fitted to other responses on a design with one column"
         " fewer and INSPECTED (every accessor) and from one whose first fit failed, and from one configured through the"
-        " public fields alpha / tolerance / weights; Gaussian cases again with responses and offsets times 2^-40 and "
-        "2^30 (coefficients, predictions, standard errors scale by s, deviance and dispersion by s^2), invariance under"
-        " reversing the rows, an iteration budget of 1 => Err, accessors fail before a fit; P3 (observation validated "
-        "by TLC Trace_GLM): 120 (quick) / 1200 random designs with responses simulated from the model, weights / "
-        "offsets / alpha in {0, .1, 1, 10}, tolerances 1e-8..1e-14, one event in seven with 8..24 nearly noise-free "
-        "observations under alpha in {1, 10} (penalty of the order of the deviance itself), a third with large-mean "
-        "responses (log-link iteration starts far from the solution), a third on an object that was already fitted to "
-        "other responses with another configuration and a third retried as configured after a fit that failed with a "
-        "budget of one iteration: tiny-mean (1e-6) Gamma / Exponential responses and huge-mean (900) log-link responses"
-        " whose start value overflows (Err or a finite answer); the reported deviance is the family's definition at the"
-        " fitted means (within 4 sqrt(tol), as for the score); the penalised score at the returned coefficients "
-        "vanishes to 4 sqrt(tolerance) relative to its terms or to the scale of the data. Case class = (family, design "
-        "kind, weights, offset, ridge).")
+        " public fields alpha / tolerance / weights, and from a clone of the configured object; Gaussian cases again "
+        "with responses and offsets times 2^-40 and 2^30 (coefficients, predictions, standard errors scale by s, "
+        "deviance and dispersion by s^2), invariance under reversing the rows, an iteration budget of 1 => Err, "
+        "accessors fail before a fit; P3 (observation validated by TLC Trace_GLM): 120 (quick) / 1200 random designs "
+        "with responses simulated from the model, weights / offsets / alpha in {0, .1, 1, 10}, tolerances 1e-8..1e-14, "
+        "one event in seven with 8..24 nearly noise-free observations under alpha in {1, 10} (penalty of the order of "
+        "the deviance itself), a third with large-mean responses (log-link iteration starts far from the solution), a "
+        "third on an object that was already fitted to other responses with another configuration and a third retried "
+        "as configured after a fit that failed with a budget of one iteration: tiny-mean (1e-6) Gamma / Exponential "
+        "responses and huge-mean (900) log-link responses whose start value overflows (Err or a finite answer); the "
+        "reported deviance is the family's definition at the fitted means (within 4 sqrt(tol), as for the score); the "
+        "penalised score at the returned coefficients vanishes to 4 sqrt(tolerance) relative to its terms or to the "
+        "scale of the data. Case class = (family, design kind, weights, offset, ridge).")
 ASSUMPTIONS = ["exact oracle: Gaussian family and grouped designs only (32-bit rationals); for general designs of the other five families the score equations are an observation computed by the harness with the textbook link / variance functions",
                "weighted deviance / dispersion conventions are not judged (the property does not fix them); aic/bic are not judged",
                "the residual sum of squares is compared only where the exact value fits in 32-bit integers (16 of 49 Gaussian cases)"]
